@@ -685,12 +685,12 @@ def call_list(Pm):
     return out
 
 
-QUICK_N = 6000
+QUICK_N = 110000
 
 
 def select(calls, rng, tier, n=None):
     """thorough: the whole list.  quick: a small exhaustive core - for every (class, callable) its
-    first call (base receiver, base arguments) and three seeded picks among its calls - plus a seeded
+    first call (base receiver, base arguments) and eight seeded picks among its calls (all of them for groups of at most 40 calls and for Units) - plus a seeded
     sample of n calls from the whole list.  The seed never reaches outside the list."""
     if tier == 'thorough':
         return calls
@@ -704,7 +704,10 @@ def select(calls, rng, tier, n=None):
     for key in sorted(groups):
         g = groups[key]
         chosen.add(g[0])
-        for _ in range(3):
+        if key[0] == 'Units' or len(g) <= 40:       # small groups (all of Units: 935 calls) run completely
+            chosen.update(g)
+            continue
+        for _ in range(8):
             chosen.add(g[rng.randrange(len(g))])
     chosen.update(rng.sample(range(len(calls)), n))
     return [calls[i] for i in sorted(chosen)]
